@@ -1012,3 +1012,4 @@ def finish(tier, rep: Report):
     if nvol < (150 if tier == "quick" else 3000):
         fails.append(f"too few well-conditioned tetrahedral meshes were checked: {nvol}")
     return fails
+
